@@ -20,9 +20,24 @@ NOT_APPLICABLE = {
 
 # claimed by DESIGN.md but whose check is not built yet (kept out of `checks` until it runs clean end to end)
 PENDING = {p: "in scope for deterministic simulation (DESIGN.md §5) but the check is not built yet in this revision; not claimed"
-           for p in ["C07", "C11", "C12", "C13", "C14", "C17", "C19"]}
+           for p in ["C07", "C11", "C12", "C13", "C14", "C19"]}
 
 PROPS = {
+    "C17": {
+        "level": "exploration",
+        "level_text": "members are simulator tasks, so the completion order is the schedule; seeded exploration over strategies x member counts x outcomes x completion orders x cancellation-aware/waiting members, with the finite space (strategy x n<=4 x outcomes x orders) measured and, in the thorough tier, required to be covered completely; contract, cancellation, panic and goroutine-leak oracles",
+        "level_note": TRUST + "; cancellation is read no more strongly than the code documents it (a decided success of All/Most/Any must not cancel anybody; One derives no context)",
+        "technique": "deterministic simulation (member completion order = seeded schedule) + strategy-contract oracle on (outcome vector, order) + synctest leak/panic monitor; measured coverage of the finite case space",
+        "rule": ("runs are generated from the decision tape (strategy, direct or via Execute, n, outcomes, member kinds, release order of members); non-trivial = at least two members; "
+                 "distinct = distinct (strategy, call path, n, outcome vector, completion order, member kinds, verdict) descriptions among non-trivial runs"),
+        "scenarios": [
+            {"name": "group", "quick": 120000, "thorough": 4000000, "thorough_time": 200},
+        ],
+        "case_space": 2246,
+        "case_space_what": "strategy in {All,Most,Any,Fast,Race} x n in 0..4 x every success/failure vector x every completion order (443 each) + One x n in 0..4 x every outcome vector (31); plain members only",
+        "require_hits": [],
+        "assumptions": ["members are cooperative functions that return when released (or when their context ends)"],
+    },
     "C09": {
         "level": "exploration",
         "level_text": "seeded exploration of writer/consumer pacing with stall, abandon and fake-time advance faults: no-wait for lossy subscribers, validity of the lossy stream as an edit script of the consumer's own view, convergence after draining, and the bounded failure of backpressured Value writes decided exactly on the fake clock",
